@@ -79,6 +79,7 @@ type EnumCtor struct {
 type TypeLocks struct {
 	Type        *types.Named
 	LockField   string
+	LockPath    []string // LockField, or the path through a monitor struct (mon, cond)
 	CondLock    bool // the mutex is reached through a *sync.Cond field (f.L)
 	Funcs       map[*types.Func]*FuncLocks
 	Order       []*FuncLocks
@@ -90,21 +91,77 @@ type TypeLocks struct {
 
 // FindLockField returns the name of the struct's sync.Mutex/RWMutex/*sync.Cond field.
 func FindLockField(t *types.Named) (name string, cond bool) {
+	path, cond := FindLockPath(t)
+	if len(path) == 0 {
+		return "", false
+	}
+	return path[0], cond
+}
+
+// FindLockPath: the field path from the struct to its mutex: one field, or two when the mutex lives in
+// a small struct of synchronisation primitives the collection holds (a monitor: q.mon.cond).
+func FindLockPath(t *types.Named) (path []string, cond bool) {
 	st, ok := t.Underlying().(*types.Struct)
 	if !ok {
-		return "", false
+		return nil, false
+	}
+	direct := func(st *types.Struct) (string, bool, bool) {
+		mutex, mcond := "", ""
+		for i := 0; i < st.NumFields(); i++ {
+			f := st.Field(i)
+			switch f.Type().String() {
+			case "sync.Mutex", "sync.RWMutex", "*sync.Mutex", "*sync.RWMutex":
+				if mutex == "" {
+					mutex = f.Name()
+				}
+			case "*sync.Cond", "sync.Cond":
+				if mcond == "" {
+					mcond = f.Name()
+				}
+			}
+		}
+		// a mutex beside a condition variable bound to it: the mutex is the lock
+		if mutex != "" {
+			return mutex, false, true
+		}
+		if mcond != "" {
+			return mcond, true, true
+		}
+		return "", false, false
+	}
+	if n, c, ok := direct(st); ok {
+		return []string{n}, c
 	}
 	for i := 0; i < st.NumFields(); i++ {
 		f := st.Field(i)
-		ts := f.Type().String()
-		switch ts {
-		case "sync.Mutex", "sync.RWMutex", "*sync.Mutex", "*sync.RWMutex":
-			return f.Name(), false
-		case "*sync.Cond":
-			return f.Name(), true
+		ft := f.Type()
+		if pt, ok := ft.(*types.Pointer); ok {
+			ft = pt.Elem()
+		}
+		nt, ok := ft.(*types.Named)
+		if !ok || nt.Obj().Pkg() != t.Obj().Pkg() {
+			continue
+		}
+		ist, ok := nt.Underlying().(*types.Struct)
+		if !ok {
+			continue
+		}
+		pure := ist.NumFields() > 0
+		for k := 0; k < ist.NumFields(); k++ {
+			switch strings.TrimPrefix(ist.Field(k).Type().String(), "*") {
+			case "sync.Mutex", "sync.RWMutex", "sync.Cond":
+			default:
+				pure = false
+			}
+		}
+		if !pure {
+			continue
+		}
+		if n, c, ok := direct(ist); ok {
+			return []string{f.Name(), n}, c
 		}
 	}
-	return "", false
+	return nil, false
 }
 
 type analyzer struct {
@@ -119,8 +176,12 @@ func Analyze(p *core.Program, t *types.Named) *TypeLocks {
 
 // AnalyzeWith is Analyze with a package-level mutex variable as the guarding lock.
 func AnalyzeWith(p *core.Program, t *types.Named, pkgLock types.Object) *TypeLocks {
-	lf, cond := FindLockField(t)
-	tl := &TypeLocks{Type: t, LockField: lf, CondLock: cond, Funcs: map[*types.Func]*FuncLocks{}, Written: map[string]bool{}, ElemWritten: map[string]bool{}, PkgLock: pkgLock}
+	lpath, cond := FindLockPath(t)
+	lf := ""
+	if len(lpath) > 0 {
+		lf = lpath[0]
+	}
+	tl := &TypeLocks{Type: t, LockField: lf, LockPath: lpath, CondLock: cond, Funcs: map[*types.Func]*FuncLocks{}, Written: map[string]bool{}, ElemWritten: map[string]bool{}, PkgLock: pkgLock}
 	if pkgLock != nil {
 		tl.LockField, tl.CondLock = "", false
 	}
@@ -232,11 +293,18 @@ func (a *analyzer) lockOp(info *types.Info, recv types.Object, call *ast.CallExp
 		}
 		x = ast.Unparen(l.X)
 	}
-	f, ok := x.(*ast.SelectorExpr)
-	if !ok || f.Sel.Name != a.tl.LockField {
-		return ""
+	path := a.tl.LockPath
+	if len(path) == 0 {
+		path = []string{a.tl.LockField}
 	}
-	id, ok := ast.Unparen(f.X).(*ast.Ident)
+	for i := len(path) - 1; i >= 0; i-- {
+		f, ok := x.(*ast.SelectorExpr)
+		if !ok || f.Sel.Name != path[i] {
+			return ""
+		}
+		x = ast.Unparen(f.X)
+	}
+	id, ok := x.(*ast.Ident)
 	if !ok || info.ObjectOf(id) != recv {
 		return ""
 	}
